@@ -121,7 +121,17 @@ spec fn wl_inv(re: Regex, c: Map<RegexId, DFAId>, sid: Map<ISet<u32>, u32>, tran
     && (forall|s: ISet<u32>| #[trigger] um.contains(s) ==> sid.contains_key(s) && !trans.contains_key(sid[s]))
     && (forall|s: ISet<u32>| #[trigger] sid.contains_key(s) && !um.contains(s) && cur != Some(s) ==> row_ok(re, c, sid, trans, pool, s, pool.len() as int))
     && (forall|q: u32| #[trigger] trans.contains_key(q) ==> q < next)
+    && keys_in_pool(trans, pool.len() as int)
 }
+
+/// every symbol id used in the table is the id of a pool index
+spec fn keys_in_pool(trans: Map<u32, Map<InpId, u32>>, n: int) -> bool {
+    forall|q: u32, k: InpId| #[trigger] used_t(trans, q, k) ==> key_in_pool(n, k)
+}
+
+spec fn used_t(trans: Map<u32, Map<InpId, u32>>, q: u32, k: InpId) -> bool { trans.contains_key(q) && trans[q].contains_key(k) }
+
+spec fn key_in_pool(n: int, k: InpId) -> bool { exists|i: int| 0 <= i < n && k == #[trigger] id_of(i) }
 
 /// one step of the row loop: the effect of handling symbol j of the current state keeps the
 /// worklist invariant and completes cell j of the current row
@@ -196,6 +206,33 @@ proof fn lemma_row_step(re: Regex, c: Map<RegexId, DFAId>, sid: Map<ISet<u32>, u
         assert forall|q: u32| #[trigger] tr2.contains_key(q) implies q < next2 by {
             if q != id { assert(tr.contains_key(q)); }
         }
+        assert forall|q: u32, k: InpId| #[trigger] used_t(tr2, q, k) implies key_in_pool(pool.len() as int, k) by {
+            if q == id {
+                if k == id_of(j) { assert(key_in_pool(pool.len() as int, k)); }
+                else { assert(used_t(tr, q, k)); }
+            } else { assert(used_t(tr, q, k)); }
+        }
+    }
+}
+
+/// the table only uses symbols of the pool, and within-word symbols name automata of the pool
+proof fn lemma_dfa_wf(re: Regex, c: Map<RegexId, DFAId>, dfa: DFA, n: int)
+    requires
+        keys_in_pool(dfa.transitions@, dfa.inputs@.len() as int), dfa.inputs@.len() <= u32::MAX,
+        pool_ok(re, c, dfa.inputs@, re.input_from_position@.len() as int),
+        keys_cached(re, c, re.input_from_position@.len() as int), cache_in_range(c, n), n == dfa.subdfas.store@.len(),
+    ensures dfa_wf(dfa), subs_wf(dfa)
+{
+    assert forall|q: u32, id: InpId| #[trigger] used(dfa, q, id) implies 0 <= ix_of(id) < dfa.inputs@.len() by {
+        assert(used_t(dfa.transitions@, q, id));
+        let i = choose|i: int| 0 <= i < dfa.inputs@.len() && id == #[trigger] id_of(i);
+        lemma_ix_of_id_of(i);
+    }
+    assert forall|i: int| 0 <= i < dfa.inputs@.len() implies ((#[trigger] dfa.inputs@[i]) is Subword ==> 0 <= dfa_ix(dfa.inputs@[i]->subdfa) < dfa.subdfas.store@.len()) by {
+        assert(has_source(re, c, re.input_from_position@.len() as int, dfa.inputs@[i]));
+        let p = choose|p: int| 0 <= p < re.input_from_position@.len() && p < re.input_from_position@.len() && lab(#[trigger] re.input_from_position@[p], c) == dfa.inputs@[i];
+        assert(key_cached(re.input_from_position@[p], c));
+        lemma_dfa_ix(dfa.inputs@[i]->subdfa);
     }
 }
 
